@@ -19,11 +19,12 @@ CFG = {
          'non-empty); shape key = (op, same byte length?, relation eq/prefix/first differing byte class and bit, to mod 8 = 0?, payload '
          'class <8/8/>8 bytes | CmpUpto branch empty/short/ge, cmpBytes fast path?); distinct = distinct (op,args)',
  'assumptions': ['0 <= from <= to <= 8*len(s) (the domain of New stated in the property); strings are byte lists',
-                 '8*len(s)+7 < 2^31 (int32 bit positions cannot overflow). The protocol operations run the int32-faithful model New32/Len32 (Model/Bitstr32.v), '
-                 'proved equal to the unbounded New/Len when toBit+7 < 2^31 (C09_new32_eq, C09_len32_eq). BOUNDARY FINDING: for toBit in [2^31-7, 2^31-1] '
-                 '(valid int32, reachable with a string of 2^28 bytes) (toBit+7)>>3 overflows and New panics in make (C09_new32_top_panics, '
-                 'C09_new_full_int32_range_refuted; replayed on the real code with a 256 MiB string: "makeslice: len out of range"); not exercised by the '
-                 'generator (the text protocol does not carry 256 MiB strings)',
+                 'from, to are int32 (to <= 8*len(s) <= 2^31-1): no further size condition. The protocol operations run the int32-faithful model New32/Len32 '
+                 '(Model/Bitstr32.v); since the /repo fix b2a771a (end byte computed in int64) New32 = unbounded New on the whole int32 range (C09_new32_eq), and '
+                 'Len32 = Len whenever the bit length fits int32 (C09_len32_eq; always true of New outputs, C09_len32_new32). FIXED FINDING: before b2a771a, for toBit in '
+                 '[2^31-7, 2^31-1] (reachable with a string of 2^28 bytes) (toBit+7)>>3 overflowed int32 and New panicked in make (C09_new32_legacy_top_refuted, '
+                 'C09_new_legacy_full_int32_range_refuted against Model/LegacyBitstr32.v; replayed on the pre-fix code with a 256 MiB string: "makeslice: len out of '
+                 'range"); that band is not exercised by the generator (the text protocol does not carry 256 MiB strings)',
                  'Cmp/CmpUpto/Len are exercised on encodings produced by the real New (the theorems hold for the canonical encoding of ANY bit list)'],
  'trusted': ['modelled not verified: bytes.Compare (= cmp_sign of lexicographic order on unsigned bytes, prefix first), copy, bits.OnesCount8 (popcount), bitmap.RMask (Lib/Bits.v RMask, pinned by C12)',
              'NOT PROVED, monitored only: memory safety of the unsafe string->slice re-typing in StrCmpUpto (since the fix 907cc2b the slice header is built explicitly '
